@@ -235,6 +235,8 @@ of the saturating addition (the rest of the current list unchanged). -/
 structure Cfg where
   uncheckedVnPartCount : Bool := false
   oldRib : Bool := false
+  /-- Rib before `fix: Rib validates the lengths before building its frame`: the oriented bounding box first -/
+  ribObbFirst : Bool := false
   oldGreedy : Bool := false
   oldKk : Bool := false
   oldVnBest : Bool := false
@@ -250,6 +252,7 @@ def guards (cfg : Cfg) : Algo → List Guard
   | .rcb => rcbGuards
   | .rib =>
     if cfg.oldRib then [.ribObb, .emptyPointsOk, .lenWeights, .lenPoints, .emptyPointsOk, .body]
+    else if cfg.ribObbFirst then [.ribObb, .lenWeights, .lenPoints, .emptyPointsOk, .body]
     else ribGuards
   | .greedy => if cfg.oldGreedy then [.partCountLt2Fill, .lenWeights, .body] else greedyGuards
   | .kk => if cfg.oldKk then [.kkTrivialOk, .lenWeights, .body] else kkGuards
